@@ -119,6 +119,33 @@ func vfShuffleOpts[T any](opts []T) []T {
 	return opts
 }
 
+// Option values are plain values: an application may build its option list once and hand it to every server it creates.
+// vfShareOpts (set by runs that have two sessions alive at once) and a share of all other runs use one process-wide
+// WithAllocator()/WithRSAllocator() value instead of a fresh one per server.
+var vfShareOpts bool
+var vfSharedAllocOpt ServerOption
+var vfSharedRSAllocOpt RequestServerOption
+
+func vfAllocOpt() ServerOption {
+	if vfShareOpts || vfOptMix%4 >= 2 {
+		if vfSharedAllocOpt == nil {
+			vfSharedAllocOpt = WithAllocator()
+		}
+		return vfSharedAllocOpt
+	}
+	return WithAllocator()
+}
+
+func vfRSAllocOpt() RequestServerOption {
+	if vfShareOpts || vfOptMix%4 >= 2 {
+		if vfSharedRSAllocOpt == nil {
+			vfSharedRSAllocOpt = WithRSAllocator()
+		}
+		return vfSharedRSAllocOpt
+	}
+	return WithRSAllocator()
+}
+
 // vfStartServer creates the link and the server (inside the bubble) and starts Serve.
 func vfStartServer(sim *vfSim, kind int, alloc bool, fs *sfs, hopt int, root string, readOnly bool, startDir string, maxTx uint32) *vfServer {
 	v := &vfServer{sim: sim, kind: kind, fs: fs, root: root}
@@ -128,7 +155,7 @@ func vfStartServer(sim *vfSim, kind int, alloc bool, fs *sfs, hopt int, root str
 	if kind == 0 {
 		var opts []ServerOption
 		if alloc {
-			opts = append(opts, WithAllocator())
+			opts = append(opts, vfAllocOpt())
 		}
 		if root != "" {
 			opts = append(opts, WithServerWorkingDirectory(root))
@@ -159,7 +186,7 @@ func vfStartServer(sim *vfSim, kind int, alloc bool, fs *sfs, hopt int, root str
 	} else {
 		var opts []RequestServerOption
 		if alloc {
-			opts = append(opts, WithRSAllocator())
+			opts = append(opts, vfRSAllocOpt())
 		}
 		if startDir != "" {
 			opts = append(opts, WithStartDirectory(startDir))
